@@ -471,13 +471,18 @@ class Samples(BaseSamples):
         self.weights = self.xp.exp(self.log_w)
         self.evidence = self.xp.exp(self.log_evidence)
         n = len(self.x)
-        self.evidence_error = self.xp.sqrt(
-            self.xp.sum((self.weights - self.evidence) ** 2) / (n * (n - 1))
-        )
-        self.log_evidence_error = self.xp.abs(
-            self.evidence_error / self.evidence
-        )
+        # Compute the relative error from max-shifted weights so that it stays
+        # finite when exp(log_w) over- or underflows
         log_w = self.log_w - self.xp.max(self.log_w)
+        scaled = self.xp.exp(log_w)
+        mean_scaled = self.xp.mean(scaled)
+        self.log_evidence_error = (
+            self.xp.sqrt(
+                self.xp.sum((scaled - mean_scaled) ** 2) / (n * (n - 1))
+            )
+            / mean_scaled
+        )
+        self.evidence_error = self.log_evidence_error * self.evidence
         self.effective_sample_size = self.xp.exp(
             asarray(logsumexp(log_w) * 2 - logsumexp(log_w * 2), self.xp)
         )
